@@ -542,6 +542,25 @@ def rk_reserved(ctx):
                     f"sequence-region lines {regions}, FASTA records {sorted(records)}: every collection must have both", w)
 
 
+    # sequences whose length sits around the FASTA line width (60): the record spells the whole sequence, the sequence-region
+    # line states its length
+    for L in (1, 59, 60, 61, 119, 120, 121, 181):
+        seqL = (GENOME * 5)[:L]
+        try:
+            cl = mk_collection(it, None, None, sequence_name=f"s{L}", parent_or_seq_chunk_parent=chrom_parent(it, seqL, seq_id=f"s{L}", alphabet="NT_EXTENDED"))
+        except Raised:
+            break
+        handle = []
+        k, v = run(it, w, [[cl], handle], {"add_sequences": True}, None)
+        i = handle.index("##FASTA") if "##FASTA" in handle else len(handle)
+        rec = "".join(x.strip() for x in handle[i + 2:]) if len(handle) > i + 1 and handle[i + 1].startswith(f">s{L}") else None
+        lines_ok = all(len(x) <= 60 for x in handle[i + 2:])
+        r.check(k == "ok" and rec == seqL and f"##sequence-region s{L} 1 {L}" in handle and lines_ok, "C11.RR", w.qual,
+                f"FASTA record of a sequence of {L} bases",
+                f"collection_to_gff3(add_sequences=True) for a sequence of {L} bases -> {k}:{v if k != 'ok' else ''}; the FASTA record spells "
+                f"{len(rec) if rec is not None else rec} bases in lines of {[len(x) for x in handle[i + 2:]]}", w)
+
+
 def r1_escape_tables(ctx):
     r = ctx.r
     it = std_interp(ctx.repo)
